@@ -53,24 +53,28 @@ var Exceptions = []Exception{
 
 // Loop is one order-source loop.
 type Loop struct {
-	Fn      *ssa.Function
-	FnName  string
-	Pkg     *packages.Package
-	Stmt    ast.Stmt
-	Kind    string // "map" or "iterator"
-	Ranged  string
-	Key     types.Object
-	Val     types.Object
-	Body    *ast.BlockStmt
-	Effects []string
-	Problem []string // why it is not provably order-insensitive
-	Collect []types.Object
-	decl    ast.Node
+	Fn     *ssa.Function
+	FnName string
+	Pkg    *packages.Package
+	Stmt   ast.Stmt
+	Kind   string // "map" or "iterator"
+	Ranged string
+	// RangedShape: the ranged expression with its root variable dropped (selector path only): stable under renaming
+	RangedShape string
+	Key         types.Object
+	Val         types.Object
+	Body        *ast.BlockStmt
+	Effects     []string
+	Problem     []string // why it is not provably order-insensitive
+	Collect     []types.Object
+	decl        ast.Node
 }
 
 // Analyzer holds per-run state.
 type Analyzer struct {
 	lastSortWhy string // why the last candidate sort call was rejected (for reports)
+	sortDepth   int
+	cmpDepth    int
 	P           *load.Prog
 	R           *oblig.Report
 	Loops       []*Loop
@@ -111,12 +115,14 @@ type Unit struct {
 // Units converts SSA functions into analysis units.
 func (a *Analyzer) Units(funcs []*ssa.Function) []Unit {
 	var out []Unit
+	seen := map[ast.Node]bool{}
 	for _, fn := range funcs {
 		syn := fn.Syntax()
 		pk := a.pkgOf(fn)
-		if syn == nil || pk == nil {
-			continue
+		if syn == nil || pk == nil || seen[syn] {
+			continue // no source, or another instantiation of a generic function that was already taken
 		}
+		seen[syn] = true
 		out = append(out, Unit{Name: load.FuncName(fn), Syn: syn, Pkg: pk, Fn: fn})
 	}
 	return out
@@ -170,7 +176,7 @@ func (a *Analyzer) CollectUnits(units []Unit) {
 					}
 				}
 				if tv, ok := info.Types[s.X]; ok && isMap(tv.Type) {
-					l := &Loop{Fn: fn, FnName: u.Name, Pkg: pk, Stmt: s, Kind: "map", Ranged: exprKey(s.X), Body: s.Body, decl: syn}
+					l := &Loop{Fn: fn, FnName: u.Name, Pkg: pk, Stmt: s, Kind: "map", Ranged: exprKey(s.X), RangedShape: exprKey(s.X), Body: s.Body, decl: syn}
 					if id, ok := s.Key.(*ast.Ident); ok && id.Name != "_" {
 						l.Key = objOf(info, id)
 					}
@@ -275,13 +281,41 @@ type bodyCtx struct {
 	info   *types.Info
 	locals map[types.Object]bool // declared inside the loop body
 	inNest bool
+	// alias: while the body of a helper called from the loop is walked in the loop's context, the helper's
+	// parameters (and receiver) stand for the argument expressions of that call
+	alias  map[types.Object]ast.Expr
+	inline int // nesting depth of helper bodies being walked
+}
+
+// obj resolves an identifier to its object, looking through a helper parameter that stands for a plain variable.
+func (c *bodyCtx) obj(id *ast.Ident) types.Object {
+	o := objOf(c.info, id)
+	for i := 0; i < 4 && o != nil; i++ {
+		e, ok := c.alias[o]
+		if !ok {
+			break
+		}
+		aid, isID := ast.Unparen(e).(*ast.Ident)
+		if !isID {
+			break
+		}
+		o = objOf(c.info, aid)
+	}
+	return o
 }
 
 func (c *bodyCtx) mentions(e ast.Node, objs ...types.Object) bool {
 	found := false
 	ast.Inspect(e, func(n ast.Node) bool {
 		if id, ok := n.(*ast.Ident); ok {
-			o := objOf(c.info, id)
+			if ae, aliased := c.alias[objOf(c.info, id)]; aliased && c.inline < 4 {
+				c.inline++
+				if c.mentions(ae, objs...) {
+					found = true
+				}
+				c.inline--
+			}
+			o := c.obj(id)
 			for _, want := range objs {
 				if want != nil && o == want {
 					found = true
@@ -298,7 +332,14 @@ func (c *bodyCtx) loopVariant(e ast.Node) bool {
 	v := false
 	ast.Inspect(e, func(n ast.Node) bool {
 		if id, ok := n.(*ast.Ident); ok {
-			o := objOf(c.info, id)
+			if ae, aliased := c.alias[objOf(c.info, id)]; aliased && c.inline < 4 {
+				c.inline++
+				if c.loopVariant(ae) {
+					v = true
+				}
+				c.inline--
+			}
+			o := c.obj(id)
 			if o != nil && (o == c.l.Key || o == c.l.Val || c.locals[o]) {
 				v = true
 			}
@@ -528,7 +569,7 @@ func (c *bodyCtx) joinIf(s *ast.IfStmt) (string, bool) {
 	if !isID || !isNot || un.Op != token.NOT {
 		return "", false
 	}
-	if cid, ok := un.X.(*ast.Ident); !ok || objOf(c.info, cid) != objOf(c.info, okID) {
+	if cid, ok := un.X.(*ast.Ident); !ok || c.obj(cid) != c.obj(okID) {
 		return "", false
 	}
 	target := exprKey(ix)
@@ -571,7 +612,7 @@ func (c *bodyCtx) walk(stmts []ast.Stmt, joinTarget string) {
 		case *ast.AssignStmt:
 			c.assign(s, joinTarget)
 		case *ast.IncDecStmt:
-			if id := rootIdent(s.X); id != nil && c.locals[objOf(c.info, id)] {
+			if id := rootIdent(s.X); id != nil && c.locals[c.obj(id)] {
 				continue
 			}
 			c.effect("accumulate(" + lastName(s.X) + ")")
@@ -581,7 +622,7 @@ func (c *bodyCtx) walk(stmts []ast.Stmt, joinTarget string) {
 				continue
 			}
 			if id, ok := call.Fun.(*ast.Ident); ok && id.Name == "delete" && len(call.Args) == 2 {
-				if kid, ok := call.Args[1].(*ast.Ident); ok && c.l.Key != nil && objOf(c.info, kid) == c.l.Key {
+				if kid, ok := call.Args[1].(*ast.Ident); ok && c.l.Key != nil && c.obj(kid) == c.l.Key {
 					c.effect("keyed-delete(" + lastName(call.Args[0]) + ")")
 					continue
 				}
@@ -595,6 +636,8 @@ func (c *bodyCtx) walk(stmts []ast.Stmt, joinTarget string) {
 				continue
 			}
 			if ok, why := c.exprPure(call); ok {
+				continue
+			} else if c.inlineHelper(call, joinTarget) {
 				continue
 			} else {
 				fn, _ := typeutil.Callee(c.info, call).(*types.Func)
@@ -663,6 +706,16 @@ func (c *bodyCtx) walk(stmts []ast.Stmt, joinTarget string) {
 				c.problem(s.Pos(), "unsupported branch statement")
 			}
 		case *ast.ReturnStmt:
+			if c.inline > 0 {
+				// the end of a helper whose body is walked in the loop's context, not of the loop
+				for _, res := range s.Results {
+					if ok, why := c.exprPure(res); !ok {
+						c.effect("call")
+						c.problem(res.Pos(), "result of the helper has an effect: "+why)
+					}
+				}
+				continue
+			}
 			// a return of loop-invariant, effect-free values under pure conditions is an exists-test:
 			// whichever iteration triggers it, the caller sees the same thing
 			inv := true
@@ -696,6 +749,86 @@ func (c *bodyCtx) walk(stmts []ast.Stmt, joinTarget string) {
 		}
 		_ = i
 	}
+}
+
+// inlineHelper walks the body of an unexported helper of the package (function or method) that the loop body calls
+// as a statement, in the loop's own context: the helper's parameters stand for the arguments of the call, its
+// locals are locals of the body, its effects are the loop's effects. False when the callee is not such a helper.
+func (c *bodyCtx) inlineHelper(call *ast.CallExpr, joinTarget string) bool {
+	if c.inline >= 2 {
+		return false
+	}
+	fn, _ := typeutil.Callee(c.info, call).(*types.Func)
+	if fn == nil || fn.Pkg() == nil || fn.Pkg() != c.l.Pkg.Types || fn.Exported() {
+		return false
+	}
+	if fn.Origin() != nil {
+		fn = fn.Origin()
+	}
+	var decl *ast.FuncDecl
+	for _, f := range c.l.Pkg.Syntax {
+		for _, d := range f.Decls {
+			if fd, ok := d.(*ast.FuncDecl); ok && fd.Body != nil && c.info.Defs[fd.Name] == fn {
+				decl = fd
+			}
+		}
+	}
+	if decl == nil || decl == c.l.decl {
+		return false
+	}
+	var params []*ast.Ident
+	if decl.Recv != nil {
+		for _, f := range decl.Recv.List {
+			params = append(params, f.Names...)
+		}
+		if len(params) == 0 {
+			params = append(params, nil)
+		}
+	}
+	for _, f := range decl.Type.Params.List {
+		if len(f.Names) == 0 {
+			params = append(params, nil)
+		}
+		params = append(params, f.Names...)
+	}
+	args := call.Args
+	if decl.Recv != nil {
+		sel, ok := ast.Unparen(call.Fun).(*ast.SelectorExpr)
+		if !ok {
+			return false
+		}
+		args = append([]ast.Expr{sel.X}, call.Args...)
+	}
+	if len(params) != len(args) || call.Ellipsis.IsValid() || decl.Type.Params.NumFields() > 0 && func() bool {
+		last := decl.Type.Params.List[len(decl.Type.Params.List)-1]
+		_, variadic := last.Type.(*ast.Ellipsis)
+		return variadic
+	}() {
+		return false
+	}
+	for _, a := range args {
+		if ok, _ := c.exprPure(a); !ok {
+			return false
+		}
+	}
+	saved := c.alias
+	na := map[types.Object]ast.Expr{}
+	for k, v := range saved {
+		na[k] = v
+	}
+	for i, prm := range params {
+		if prm != nil && prm.Name != "_" {
+			if o := c.info.Defs[prm]; o != nil {
+				na[o] = args[i]
+			}
+		}
+	}
+	c.alias = na
+	c.inline++
+	c.walk(decl.Body.List, joinTarget)
+	c.inline--
+	c.alias = saved
+	return true
 }
 
 // effectsBefore: has the body already recorded an order-sensitive effect (other than keyed/join forms)?
@@ -755,7 +888,7 @@ func (c *bodyCtx) findByKey(s *ast.IfStmt) bool {
 	}
 	isKey := func(e ast.Expr) bool {
 		id, ok := ast.Unparen(e).(*ast.Ident)
-		return ok && objOf(c.info, id) == c.l.Key
+		return ok && c.obj(id) == c.l.Key
 	}
 	var other ast.Expr
 	switch {
@@ -842,14 +975,14 @@ func (c *bodyCtx) assign(s *ast.AssignStmt, joinTarget string) {
 			if l.Name == "_" {
 				continue
 			}
-			o := objOf(c.info, l)
+			o := c.obj(l)
 			if c.locals[o] {
 				continue
 			}
 			// outer variable
 			if call, ok := rhs.(*ast.CallExpr); ok {
 				if id, ok := call.Fun.(*ast.Ident); ok && id.Name == "append" && len(call.Args) >= 1 {
-					if aid, ok := call.Args[0].(*ast.Ident); ok && objOf(c.info, aid) == o {
+					if aid, ok := call.Args[0].(*ast.Ident); ok && c.obj(aid) == o {
 						c.effect("collect(" + l.Name + ")")
 						c.l.Collect = append(c.l.Collect, o)
 						continue
@@ -874,7 +1007,7 @@ func (c *bodyCtx) assign(s *ast.AssignStmt, joinTarget string) {
 			tv := c.info.Types[l.X]
 			if !isMap(tv.Type) {
 				// slice element store
-				if id := rootIdent(l.X); id != nil && c.locals[objOf(c.info, id)] {
+				if id := rootIdent(l.X); id != nil && c.locals[c.obj(id)] {
 					continue
 				}
 				c.effect("store(" + lastName(l.X) + "[])")
@@ -882,7 +1015,7 @@ func (c *bodyCtx) assign(s *ast.AssignStmt, joinTarget string) {
 				continue
 			}
 			name := lastName(l.X)
-			if id := rootIdent(l.X); id != nil && c.locals[objOf(c.info, id)] {
+			if id := rootIdent(l.X); id != nil && c.locals[c.obj(id)] {
 				continue // a map created inside the body
 			}
 			if joinTarget != "" && exprKey(l) == joinTarget {
@@ -892,7 +1025,7 @@ func (c *bodyCtx) assign(s *ast.AssignStmt, joinTarget string) {
 				c.effect("join(" + name + ")")
 				continue
 			}
-			if kid, ok := ast.Unparen(l.Index).(*ast.Ident); ok && c.l.Key != nil && objOf(c.info, kid) == c.l.Key {
+			if kid, ok := ast.Unparen(l.Index).(*ast.Ident); ok && c.l.Key != nil && c.obj(kid) == c.l.Key {
 				c.effect("keyed-store(" + name + ")")
 				continue
 			}
@@ -915,9 +1048,9 @@ func (c *bodyCtx) assign(s *ast.AssignStmt, joinTarget string) {
 			c.problem(s.Pos(), "store at an index other than the loop key with a loop-dependent value")
 		case *ast.SelectorExpr, *ast.StarExpr:
 			id := rootIdent(l)
-			if id != nil && c.locals[objOf(c.info, id)] {
+			if id != nil && c.locals[c.obj(id)] {
 				// field of a body-local value; if that local is a pointer obtained from outside it still writes outside
-				if !c.localIsFresh(objOf(c.info, id)) {
+				if !c.localIsFresh(c.obj(id)) {
 					c.fieldStore(s, l, rhs)
 				}
 				continue
@@ -937,7 +1070,7 @@ func (c *bodyCtx) selfJoin(o types.Object, rhs ast.Expr) bool {
 		switch r.Op {
 		case token.LOR, token.LAND, token.ADD, token.OR, token.AND, token.MUL:
 			for _, side := range []ast.Expr{r.X, r.Y} {
-				if id, ok := ast.Unparen(side).(*ast.Ident); ok && objOf(c.info, id) == o {
+				if id, ok := ast.Unparen(side).(*ast.Ident); ok && c.obj(id) == o {
 					return true
 				}
 			}
@@ -945,7 +1078,7 @@ func (c *bodyCtx) selfJoin(o types.Object, rhs ast.Expr) bool {
 	case *ast.CallExpr:
 		if id, ok := r.Fun.(*ast.Ident); ok && (id.Name == "max" || id.Name == "min") {
 			for _, a := range r.Args {
-				if aid, ok := ast.Unparen(a).(*ast.Ident); ok && objOf(c.info, aid) == o {
+				if aid, ok := ast.Unparen(a).(*ast.Ident); ok && c.obj(aid) == o {
 					return true
 				}
 			}
@@ -1013,17 +1146,28 @@ func (c *bodyCtx) fieldStore(s *ast.AssignStmt, l ast.Expr, rhs ast.Expr) {
 // over its parameters m (a map), k and v; returns the map argument of the call.
 func (a *Analyzer) joinHelperCall(info *types.Info, call *ast.CallExpr) (ast.Expr, bool) {
 	fn, _ := typeutil.Callee(info, call).(*types.Func)
-	if fn == nil || !load.IsRepoPkg(fn.Pkg()) || len(call.Args) != 3 {
+	if fn == nil || !load.IsRepoPkg(fn.Pkg()) {
+		return nil, false
+	}
+	if fn.Origin() != nil {
+		fn = fn.Origin()
+	}
+	// m.raise(k, v) on a named map type is the same helper with the map as receiver
+	args := call.Args
+	if sel, isSel := ast.Unparen(call.Fun).(*ast.SelectorExpr); isSel && fn.Type().(*types.Signature).Recv() != nil {
+		args = append([]ast.Expr{sel.X}, call.Args...)
+	}
+	if len(args) != 3 {
 		return nil, false
 	}
 	sf := a.P.SSA.FuncValue(fn)
 	if sf == nil || len(sf.Blocks) == 0 || len(sf.Params) != 3 || !isMap(sf.Params[0].Type()) {
 		return nil, false
 	}
-	if !isJoinHelperSSA(sf) {
+	if !isJoinHelperSSA(sf) && !isJoinHelperPaths(sf) {
 		return nil, false
 	}
-	return call.Args[0], true
+	return args[0], true
 }
 
 // isJoinHelperSSA: f(m, k, v) does nothing but m[k] = v when k is absent and m[k] = max(m[k], v) when it is
